@@ -317,6 +317,72 @@ impl<'a> G<'a> {
         self.op("cn_poll".to_string());
     }
 
+    /// a stream that has ended in both directions while the application still holds unreleased DATA: the capacity is
+    /// released late (enough of it to make a stream WINDOW_UPDATE due), the last handle goes right after, and only then
+    /// the connection is polled — nothing may be kept for the stream afterwards
+    fn late_release_prelude(&mut self) {
+        let n = (*self.rng.pick(&[600i64, 5000, 16384, 40000])).min(self.conn_credit).min(16384).max(1) as usize;
+        let k = self.nslots;
+        let sid;
+        if self.role == "client" {
+            self.req(true, "GET");
+            self.op("cn_poll".to_string());
+            if self.nslots <= k {
+                return;
+            }
+            sid = self.slot_sid[k];
+            if !self.streams.get(&sid).map(|s| s.headers_seen).unwrap_or(false) {
+                return;
+            }
+            self.peer(wire(1, 4, sid, &[0x88]));
+        } else {
+            sid = self.next_peer_sid;
+            self.next_peer_sid += 2;
+            let iws = self.our_iws;
+            self.streams.insert(sid, PeerStream { credit: iws, headers_seen: true, ..Default::default() });
+            self.peer(wire(1, 4, sid, &[0x83, 0x86, 0x84, 0x41, 0x01, b'a']));
+        }
+        let credit = self.streams.get(&sid).map(|s| s.credit).unwrap_or(0);
+        let n = n.min(credit.max(0) as usize);
+        if n == 0 {
+            return;
+        }
+        self.peer(wire(0, 1, sid, &vec![b'z'; n]));
+        self.conn_credit -= n as i64;
+        if let Some(s) = self.streams.get_mut(&sid) {
+            s.credit -= n as i64;
+            s.peer_closed = true;
+            s.responded = true;
+        }
+        self.op("cn_poll".to_string());
+        if self.role == "client" {
+            self.op(format!("cn_resp {}", k));
+        } else {
+            let a = self.op("cn_accept".to_string());
+            if let Some(rest) = Self::field(&a, "r=").strip_prefix("ok:") {
+                let p: Vec<&str> = rest.split(':').collect();
+                let asid: u32 = p[1].parse().unwrap_or(0);
+                self.nslots += 1;
+                self.slot_sid.push(asid);
+                self.accepted.insert(asid);
+            } else {
+                return;
+            }
+            self.op(format!("cn_respond {} 200 1", k));
+            self.op("cn_poll".to_string());
+        }
+        for _ in 0..20 {
+            let a = self.op(format!("cn_read {}", k));
+            if !Self::field(&a, "r=").starts_with("data:") {
+                break;
+            }
+        }
+        self.op(format!("cn_release {} {}", k, n));
+        self.op(format!("cn_drop {} all", k));
+        self.op("cn_poll".to_string());
+        self.op("cn_poll".to_string());
+    }
+
     fn step_client(&mut self) {
         let r = self.rng.below(100);
         let flow = self.flavor == "flow";
@@ -1187,6 +1253,9 @@ pub fn generate(profile: &str, rng: &mut Rng, cases: usize, out: &mut dyn Write)
         g.op("cn_poll".to_string());
         if role == "client" && flavor != "c09" && g.rng.chance(1, 6) {
             g.slot_recycle_prelude();
+        }
+        if flavor != "c09" && g.rng.chance(1, 6) {
+            g.late_release_prelude();
         }
         let nops = if flavor == "c09" { 5 + g.rng.below(60) } else { 20 + g.rng.below(180) };
         for _ in 0..nops {
